@@ -178,6 +178,7 @@ class Session(object):
                 self.used_axioms |= ctx.used_axioms
 
         t_start = time.time()
+        soft0 = len(getattr(self.stats, 'soft_errors', []))
         try:
             ctxs = explore(run, self.stats, max_paths=max_paths)
         except OutsideSubset as e:
@@ -200,6 +201,8 @@ class Session(object):
             self.errors.append((label, 'contract-out-of-date',
                                 '%r at %s' % (e, traceback.format_exc().strip().split('\n')[-3].strip())))
             return []
+        for msg in getattr(self.stats, 'soft_errors', [])[soft0:]:
+            self.errors.append((label, 'outside-subset', msg))
         n = 0
         for c in ctxs:
             for o in c.obligations:
